@@ -70,7 +70,8 @@ driver raises, or is passed over — patch 06, the current tree).
     lines in order.  `consOff_consistent` ties `ConsOff … ∅` to `consistentB` of C01.
     `substitute_designated_port_not_wf` — kernel-checked witness that the side condition "designated cell is not a port"
     is needed: for a Verilog-style feed-through implementation the real `substitute` (and the model) return a circuit that
-    is not well-formed (a copied line loses its reader pin to the instance's input line) — a finding of this round.
+    is not well-formed (a copied line loses its reader pin to the instance's input line; `copy()` of it changes the function)
+    — finding D30.
     **`remove_dangling_sem`** — `remove_dangling_nodes` (model `removeDangling`, every circuit that is well-formed up to trailing
     `None`s, any start nodes / `only` set): the result is well-formed up to trailing `None`s and embeds into the circuit
     before (index maps `r`: kinds, names, ports, state elements, the lines read at every pin and the driver of every
@@ -747,8 +748,9 @@ example : exHostI.wf = true ∧ regularB exHostI 1 exImpl = true ∧ keepsAllB e
 /-- the side condition "the designated cell is not a port" (`implOKB`) cannot be dropped from `substitute_wf`: a
     Verilog-style feed-through `input A -> fork a -> output X` as implementation makes the port cell `A` the designated
     cell; the host cell takes kind `input`, its copied line to the fork `u~a` (line 2) loses the fork's pin 0 to the
-    instance's input line (line 0) — regular use, but the result is not a well-formed circuit (the real `substitute`
-    returns the same dump, and `NNet.wf` of the real result is false: checked through the driver commands `subst` / `xform wf`) -/
+    instance's input line (line 0) — regular use, but the result is not a well-formed circuit.  The real `substitute`
+    returns the same dump; `copy()` / a pickle round trip of it then connect the fork to the stale line and the output reads 0
+    instead of the input: finding D30 (corpus/C10-designated-port.json, harness class `substitute-designated-port`) -/
 def exFeed : NNet :=
   { net := { nodes := #[⟨"input", [], [some 0]⟩, ⟨"__fork__", [some 0], [some 1]⟩, ⟨"output", [some 1], []⟩],
              lines := #[⟨0, 0, 1, 0⟩, ⟨1, 0, 2, 0⟩], io := [0, 2] },
